@@ -84,6 +84,7 @@ def learn(items):
         for it, r in zip(group, res):
             if "ok" in r:
                 it["text"] = r["ok"]
+                it["graph"] = r.get("graph")
             else:
                 it["err"] = r["err"]
     return items
@@ -319,3 +320,42 @@ Eval vm_compute in map run cases.
         for i, flags, e1, e1u, e2, e2u in parsed:
             out[i] = dict(a_ok=bool(flags[0]), b_ok=bool(flags[1]), same_events=bool(flags[2]), e1=e1, e1u=e1u, e2=e2, e2u=e2u)
     return out
+
+
+# ----------------------------------------------------------------------------- printer correspondence (C05)
+
+def coq_linearise(items):
+    """V.Puml.Linearise.linearise on the exported PUMLGraph must give exactly the tokens of the emitted text.
+    returns (n_cases, model_mismatch indices, bad_head indices, coq failures)"""
+    todo = [i for i, it in enumerate(items) if it.get("tokens") and it.get("graph")]
+    files = []
+    for s in range(0, len(todo), 25):
+        rows = []
+        for i in todo[s:s + 25]:
+            it = items[i]
+            inter = P.Interner()
+            inter("wf")
+            try:
+                rows.append(f"({i}, 1%positive, {P.coq_pgraph(it['graph'], inter)},\n   {P.coq_tokens(it['tokens'], inter)})")
+            except ValueError:
+                pass
+        body = ";\n".join(rows)
+        files.append((f"G{s}", f"""From Coq Require Import List Bool PArith Arith.
+From V Require Import Puml.Ast Puml.Syntax Puml.Linearise Puml.LineariseCheck.
+Import ListNotations.
+Definition cases : list (nat * positive * pgraph * list token) := [
+{body}].
+Definition v (c : nat * positive * pgraph * list token) := let '(i, n, g, ts) := c in lin_check n g ts.
+Eval vm_compute in (1%nat, map (fun c => fst (fst (fst c))) (filter (fun c => match v c with VModelMismatch => true | _ => false end) cases)).
+Eval vm_compute in (2%nat, map (fun c => fst (fst (fst c))) (filter (fun c => match v c with VBadHead => true | _ => false end) cases)).
+"""))
+    res = common.coq_eval_many(files)
+    mism, badhead, fails = [], [], []
+    for (name, _), (okc, o) in zip(files, res):
+        l1, l2 = common.parse_nat_list(o, "1"), common.parse_nat_list(o, "2")
+        if not okc or l1 is None or l2 is None:
+            fails.append((name, o[-500:]))
+            continue
+        mism += l1
+        badhead += l2
+    return len(todo), mism, badhead, fails
